@@ -249,6 +249,11 @@ func (e *c20Env) spec(d *c20Dag, kind string) *vexec.CaseSpec {
 		}
 		sp.Steps = append(sp.Steps, s)
 	}
+	if strings.HasPrefix(kind, "running") && e.nCase%4 == 0 {
+		// a big definition: the status document the agent serves is above 1 MiB
+		sp.Steps[0].PadBytes = 1500000
+		e.c.Count("held_runs_with_a_status_document_above_1MiB", 1)
+	}
 	switch kind {
 	case "running-in-failure-handler":
 		sp.Handlers = map[string]*vexec.HandlerSpec{"onFailure": {Hold: true}}
